@@ -30,7 +30,12 @@ legs
                  and MAC'd writes, NDEF write/read, read_with_mac in every
                  order (enum: all sequences of <= 2 operations + a fixed
                  tail; gen: 2-6 generated operations), Lite-S with both
-                 write counter policies
+                 write counter policies; NDEF accesses (with / without asking
+                 for a re-read) and one-bit modifications of the NDEF read
+                 responses at every position relative to authenticate()
+                 (enum: all sequences of <= 3 such operations + a final look
+                 at tag.ndef): an authenticated tag object hands out only
+                 NDEF data the tag holds / held, or none
   ntag_auth      PWD_AUTH/PACK: authenticate(p) == [PWD and PACK match] (gen)
   ntag_flips     all 48 single-bit changes of the right password (enum)
   ntag_tamper    every single-bit flip and random changes of the PACK answer
@@ -41,6 +46,7 @@ import hashlib
 
 from hypothesis import strategies as st
 
+import ndef as ndeflib
 import nfc.tag
 import nfc.tag.tt2_nxp
 import nfc.tag.tt3_sony
@@ -207,6 +213,61 @@ def protected_regions(cmd, rsp):
     if blocks == [simfelica.WCNT]:
         return [(13, 16)]
     return []
+
+
+def read_block_numbers(cmd):
+    """block numbers of a Read Without Encryption command with one service,
+    None for another command"""
+    if len(cmd) < 16 or cmd[1] != 0x06 or cmd[10] != 1:
+        return None
+    blocks, pos = [], 14
+    for _ in range(cmd[13]):
+        if pos + 1 >= len(cmd):
+            return None
+        if cmd[pos] & 0x80:
+            blocks.append(cmd[pos + 1])
+            pos += 2
+        else:
+            if pos + 2 >= len(cmd):
+                return None
+            blocks.append(cmd[pos + 1] | cmd[pos + 2] << 8)
+            pos += 3
+    return blocks
+
+
+def ndef_regions(cmd, rsp, where="all", plain=False):
+    """byte ranges of a genuine Read response that an attacker of the NDEF
+    read path changes: the MAC-protected part (data and MAC) of a read that
+    ends with the MAC block and, with ``plain``, the block data of a read of
+    user blocks 0..14 without MAC block (what the library sends while it is
+    not authenticated; the very bytes a MAC'd read would protect).  ``where``:
+    "data" = only reads of message blocks (block 0 not among them), "attr" =
+    only reads that fetch the attribute block 0, "all" = both."""
+    blocks = read_block_numbers(cmd)
+    if not blocks or len(rsp) < 13 + 16 or rsp[1] != 0x07 or rsp[10] != 0:
+        return []
+    if (where == "data" and 0 in blocks) or \
+            (where == "attr" and 0 not in blocks):
+        return []
+    regs = protected_regions(cmd, rsp)
+    if not regs and plain and all(0 <= n <= 14 for n in blocks) and \
+            len(rsp) == 13 + 16 * len(blocks):
+        regs = [(13, len(rsp))]
+    return regs
+
+
+def genuine_ndef(sim):
+    """the NDEF message the simulated tag holds: length field of a valid
+    attribute block 0 and the message blocks from the simulator's memory;
+    None when block 0 is not a valid attribute block"""
+    attr = bytes(sim.mem[0])
+    if sum(attr[0:14]) != int.from_bytes(attr[14:16], "big"):
+        return None
+    ln = int.from_bytes(attr[11:14], "big")
+    if ln > 14 * 16:
+        return None
+    return b"".join(bytes(sim.mem[n]) for n in range(
+        1, 1 + (ln + 15) // 16))[0:ln]
 
 
 class Tamper(object):
@@ -1059,10 +1120,29 @@ HIST_PW1 = b"hist-password-01"            # ASCII, 16 byte
 HIST_PW2 = b"Second-Password2"
 
 
+def text_message(fill, ln):
+    """a well-formed NDEF message of ``ln`` (7..200) bytes: one short Text
+    record, language "en" """
+    n = max(0, min(ln, 200) - 7)
+    text = bytes(0x61 + (fill + 5 * i) % 26 for i in range(n))
+    return bytes([0xD1, 0x01, n + 3]) + b"T\x02en" + text
+
+
 def hist_sim(case):
     prod = case["prod"]
-    kw = dict(key=case["key0"], ndef=case.get("ndef", True),
-              user=user_blocks(case.get("fill", 0), case.get("ndef", True)))
+    user = user_blocks(case.get("fill", 0), case.get("ndef", True))
+    if case.get("ln") is not None and case.get("ndef", True):
+        # NDEF message of that many bytes: a Text record ("text") or the
+        # seeded block contents as they are
+        ln = case["ln"]
+        if case.get("text"):
+            msg = text_message(case.get("fill", 0), ln)
+            ln = len(msg)
+            msg += bytes(-ln % 16)
+            for i in range(len(msg) // 16):
+                user[1 + i] = msg[16 * i:16 * i + 16]
+        user[0] = attr_block(13, ln)
+    kw = dict(key=case["key0"], ndef=case.get("ndef", True), user=user)
     if prod == "lites":
         cls = simfelica.SimFelicaLiteSCountRC if case.get("count_rc") \
             else simfelica.SimFelicaLiteS
@@ -1078,13 +1158,40 @@ def _ndef_read(tag):
     return None if n is None else bytes(n.octets)
 
 
-def _ndef_write(tag, ln):
+def _ndef_look(tag):
+    """what an application sees that looks at tag.ndef without asking for a
+    re-read (has_changed): octets; length and records must go with them"""
+    n = tag.ndef
+    if n is None:
+        return None
+    octets = bytes(n.octets)
+    if n.length != len(octets):
+        raise Violation("ndef-length-disagrees", "length %r, %d octets"
+                        % (n.length, len(octets)))
+    def decoded(fn):
+        try:
+            return ["records", fn()]
+        except Exception as e:      # ndeflib's verdict on undecodable octets
+            return ["raises", type(e).__name__]
+    want = decoded(lambda: list(ndeflib.message_decoder(octets,
+                                                        errors="relax")))
+    got = decoded(lambda: n.records)
+    if got != want:
+        raise Violation("ndef-records-disagree", "records %r, octets %s "
+                        "decode to %r" % (got, octets.hex(), want))
+    return octets
+
+
+def _ndef_write(tag, ln, sink=None):
     n = tag.ndef
     if n is None:
         return "no-ndef"
     if not n.is_writeable:
         return "read-only"
-    n.octets = bytes((7 * i + ln) & 255 for i in range(min(ln, n.capacity)))
+    data = bytes((7 * i + ln) & 255 for i in range(min(ln, n.capacity)))
+    if sink is not None:
+        sink.append(data)
+    n.octets = data
     return "written"
 
 
@@ -1101,8 +1208,16 @@ def run_felica_history(case, ctx):
     session_ok = None
     ever_auth = False
     prev = "start"
+    # NDEF messages that are not the product of a modification in transit:
+    # what the simulator's memory held at some point of the history, and
+    # what the application itself assigned to tag.ndef.octets
+    accepted = set()
+    written = []
+    tampered_before = False     # some earlier NDEF read was modified
     for idx, step in enumerate(steps):
         op = step["op"]
+        accepted.add(genuine_ndef(sim))
+        accepted.update(written)
         if op == "auth":
             pw = step["pw"]
             k = felica_key_of(pw)
@@ -1167,53 +1282,86 @@ def run_felica_history(case, ctx):
                        step["block"])
             ctx.label("hist:%s:wmac:%s" % (prod, out[0]))
         elif op == "ndef-write":
-            out = call(ctx, _ndef_write, tag, step["len"])
+            out = call(ctx, _ndef_write, tag, step["len"], written)
             ctx.label("hist:%s:ndef-write:%s" % (
                 prod, out[1] if out[0] == "ok" else out[0]))
         elif op == "ndef-read":
+            # plan: None = nothing modified; int (older cases) = that bit
+            # flipped in the MAC-protected part of every MAC'd read of the
+            # step; {"bit", "where", "plain"} = see ndef_regions()
             plan = step.get("plan")
-            # an NDEF read of an authenticated tag uses reads with MAC: a
-            # response modified in transit must end in no data (or a tag
-            # command error), never in an exception of another kind and
-            # never in octets the tag does not hold
-            want = None
-            if plan is not None:
-                try:
-                    attr = sim.genuine(0)
-                    ln = int.from_bytes(attr[11:14], "big")
-                    want = b"".join(sim.genuine(n) for n in range(
-                        1, 1 + (ln + 15) // 16))[0:ln]
-                except Exception:
-                    want = None
-            def flip(rel, cmd, rsp, bit=plan):
-                # one bit inside the MAC-protected part (data or MAC) of a
-                # read response; other exchanges pass unchanged
-                regs = protected_regions(cmd, rsp)
+            how = step.get("how", "refresh")
+            if plan is not None and not isinstance(plan, dict):
+                plan = {"bit": plan, "where": "all", "plain": False}
+            want = genuine_ndef(sim)
+            flips = {"mac": 0, "plain": 0}
+
+            def flip(rel, cmd, rsp, plan=plan, flips=flips):
+                # one bit inside the block data (or MAC) of a read response
+                # of the NDEF read path; other exchanges pass unchanged
+                regs = ndef_regions(cmd, rsp, plan["where"], plan["plain"])
                 if not regs:
                     return rsp
+                flips["mac" if protected_regions(cmd, rsp) else "plain"] += 1
                 a, b = regs[0]
                 out_ = bytearray(rsp)
+                bit = plan["bit"]
                 out_[a + (bit // 8) % (b - a)] ^= 1 << (bit % 8)
                 return bytes(out_)
-            t = Tamper(clf.device, dict((str(k), flip) for k in range(1, 9))
+            t = Tamper(clf.device, dict((str(k), flip) for k in range(1, 33))
                        if plan is not None else {})
             clf.device.tamper = t
             try:
-                out = call(ctx, _ndef_read, tag)
+                out = call(ctx, _ndef_read if how == "refresh" else _ndef_look,
+                           tag)
             finally:
                 clf.device.tamper = None
+            claim = session_ok is True
             ctx.label("hist:%s:ndef-read:%s%s" % (
-                prod, out[0], ":tampered" if t.changed else ""))
-            if t.changed and ever_auth:
+                prod, out[0], ":tampered" if t.changed else ""),
+                "hist:ndef-%s:%s:%s:%s" % (
+                    how, "authenticated" if claim else "no-session",
+                    "mac-flip" if flips["mac"] else
+                    "plain-flip" if flips["plain"] else
+                    "earlier-flip" if tampered_before else "genuine",
+                    out[0] if out[0] != "ok" else
+                    "none" if out[1] is None else
+                    "genuine" if out[1] == want else
+                    "held-earlier" if out[1] in accepted else "modified"))
+            if t.touched and ever_auth:
                 ctx.set_class("%s/history/%s>ndef-read" % (prod, prev))
                 if out[0] == "other":
                     raise unexpected(out[1], "tampered-ndef-read-raises")
-                if out[0] == "ok" and out[1] is not None and t.touched \
+                if out[0] == "ok" and out[1] is not None \
                         and want is not None and out[1] != want:
                     raise Violation("altered-data-returned",
                                     "step %d: tag.ndef.octets %s, the tag "
                                     "holds %s" % (idx, out[1].hex(),
                                                   want.hex()))
+            if claim:
+                # the last authenticate() returned True: whatever the tag
+                # object hands out as NDEF data now is data the tag holds
+                # (held, when the object answers from what it read or wrote
+                # earlier), or nothing - never bytes that were changed in
+                # transit, whenever that happened
+                if t.changed or tampered_before:
+                    ctx.nontrivial()
+                if out[0] == "ok" and out[1] is not None and \
+                        out[1] not in accepted:
+                    ctx.set_class("%s/history/%s>ndef-read" % (prod, prev))
+                    raise Violation(
+                        "unverified-ndef-after-authentication",
+                        "step %d (%s): authenticate() returned True, then "
+                        "tag.ndef.octets = %s; the tag holds %s and never "
+                        "held the former (modified in transit: %s)" % (
+                            idx, "+".join(
+                                s_["op"] + ("!" if s_.get("plan") is not None
+                                            else "") for s_ in steps),
+                            out[1].hex(), want and want.hex(),
+                            "this read" if t.changed else
+                            "an earlier read" if tampered_before else
+                            "nothing"))
+            tampered_before = tampered_before or t.changed
         elif op == "rmac":
             if not ever_auth:
                 ctx.label("hist:rmac-skipped")
@@ -1272,7 +1420,8 @@ def _hstep_auth(pw, kind="same"):
 def enum_felica_history(tier, seed):
     """every sequence of 0..2 operations out of the alphabet, followed by
     authenticate(right key), read_with_mac, authenticate(other key); Lite,
-    Lite-S and Lite-S counting RC writes"""
+    Lite-S and Lite-S counting RC writes; then the histories of
+    enum_ndef_order()"""
     alphabet = ["auth", "auth-wrong", "protect", "wplain", "wmac",
                 "ndef-write", "ndef-read", "rmac"]
     seqs = [[]] + [[a] for a in alphabet] + \
@@ -1321,6 +1470,61 @@ def enum_felica_history(tier, seed):
             yield {"prod": prod, "count_rc": count_rc, "key0": key0,
                    "ndef": True, "fill": si, "wcnt": [0, 0xFE, 0xFFFE][si % 3],
                    "useed": (seed * 7919 + si) & 0xFFFFFFFF, "steps": steps}
+    for case in enum_ndef_order(tier, seed):
+        yield case
+
+
+NDEF_ORDER_ALPHABET = ["look+", "look", "reread+", "reread", "auth",
+                       "auth-wrong"]
+
+
+def enum_ndef_order(tier, seed):
+    """NDEF accesses and modifications in transit at every position relative
+    to authenticate(): every sequence of 1..3 (thorough: 1..4) operations out
+    of {look at tag.ndef (octets, length, records), the same while every
+    read response of the NDEF path has one bit changed, tag.ndef.has_changed
+    + look, the same with the bit changed, authenticate(card key),
+    authenticate(one non-parity key bit off)}, followed by one undisturbed
+    look at tag.ndef; FeliCa Lite, Lite-S, Lite-S counting RC writes; factory
+    key and a seeded key"""
+    seqs = [[]]
+    for _ in range(3 if tier == "quick" else 4):
+        seqs = seqs + [q + [a] for q in seqs if len(q) == len(seqs[-1])
+                       for a in NDEF_ORDER_ALPHABET]
+    seqs = seqs[1:]
+    configs = [("lite", False), ("lites", False), ("lites", True)]
+    for ci, (prod, count_rc) in enumerate(configs):
+        for si, seq in enumerate(seqs):
+            for ki in range(2):
+                h = seeded_key(seed, 700000 + ci * 100000 + si * 2 + ki, 24)
+                key0 = None if ki == 0 else h[0:16]
+                cur = key0 or bytes(16)
+                # a message of 1..39 bytes (one read), sometimes longer
+                # (several reads), random octets or a Text record
+                ln = [1 + h[16] % 39, 1 + h[16] % 39, 40 + h[16] % 160][si % 3]
+                steps = []
+                for j, name in enumerate(seq + ["look"]):
+                    if name == "auth":
+                        steps.append(_hstep_auth(cur))
+                    elif name == "auth-wrong":
+                        bit = 1 + h[17] % 7 + 8 * (h[18] % 16)
+                        steps.append(_hstep_auth(flip_bits(cur, [bit]),
+                                                 "flip-keybit"))
+                    else:
+                        st_ = {"op": "ndef-read", "how":
+                               "look" if name.startswith("look") else "refresh"}
+                        if name.endswith("+"):
+                            st_["plan"] = {
+                                "bit": h[19 + j % 4] + 256 * h[23],
+                                "where": "all" if (si + j + ki) % 4 == 3
+                                else "data", "plain": True}
+                        steps.append(st_)
+                yield {"prod": prod, "count_rc": count_rc, "key0": key0,
+                       "ndef": True, "fill": h[20] + 256 * (h[21] % 3),
+                       "ln": ln, "text": (si + ki) % 2 == 1 and ln >= 7,
+                       "wcnt": [0, 0xFE, 0xFFFE][si % 3],
+                       "useed": (seed * 7907 + si) & 0xFFFFFFFF,
+                       "steps": steps}
 
 
 @st.composite
@@ -1329,10 +1533,18 @@ def gen_felica_history(draw):
     key0 = draw(st.one_of(st.none(), key16, key16))
     keys = [key0 or bytes(16)]
     steps = []
-    for _ in range(draw(st.integers(2, 6))):
-        op = draw(st.sampled_from(
-            ["auth"] * 6 + ["protect"] * 2 + ["wplain"] * 2 +
-            ["wmac", "ndef-write", "ndef-read", "rmac", "rmac"]))
+    # one history in three concentrates on NDEF accesses around
+    # authentications (any order, modifications in transit before and after)
+    focus = draw(st.integers(0, 2)) == 0
+    ops = ["auth"] * 5 + ["ndef-read"] * 7 + \
+        ["protect", "wplain", "wmac", "ndef-write", "rmac"] if focus else \
+        ["auth"] * 6 + ["protect"] * 2 + ["wplain"] * 2 + \
+        ["wmac", "ndef-write", "ndef-read", "ndef-read", "rmac", "rmac"]
+    ln = draw(st.one_of(st.integers(1, 48), st.integers(1, 200))) if focus \
+        else draw(st.one_of(st.none(), st.integers(0, 48),
+                            st.integers(0, 200)))
+    for _ in range(draw(st.integers(3 if focus else 2, 6))):
+        op = draw(st.sampled_from(ops))
         if op == "auth":
             base = draw(st.sampled_from(keys[-2:] + keys[-1:] * 2))
             if draw(st.integers(0, 9)) < 6:
@@ -1366,9 +1578,20 @@ def gen_felica_history(draw):
         elif op == "ndef-write":
             steps.append({"op": op, "len": draw(st.integers(0, 60))})
         elif op == "ndef-read":
-            step = {"op": op}
-            if draw(st.integers(0, 1)) == 0:
-                step["plan"] = draw(st.integers(0, 4095))
+            step = {"op": op, "how": draw(st.sampled_from(["refresh",
+                                                           "look"]))}
+            if focus and draw(st.integers(0, 3)):
+                # mostly a bit of the message itself in its first read
+                step["plan"] = {"bit": draw(st.one_of(
+                    st.integers(0, 8 * min(ln, 48) - 1),
+                    st.integers(0, 4095))), "where": draw(st.sampled_from(
+                        ["data", "data", "data", "all"])), "plain": True}
+            elif not focus and draw(st.integers(0, 1)) == 0:
+                step["plan"] = {"bit": draw(st.integers(0, 4095)),
+                                "where": draw(st.sampled_from(
+                                    ["data", "data", "all", "attr"])),
+                                "plain": draw(st.sampled_from(
+                                    [True, True, True, False]))}
             steps.append(step)
         else:
             n = draw(st.sampled_from([1, 2, 3]))
@@ -1386,8 +1609,9 @@ def gen_felica_history(draw):
                 step["replay"] = draw(replay_selection(step["blocks"], pool))
             steps.append(step)
     return {"prod": prod, "count_rc": draw(st.booleans()), "key0": key0,
-            "ndef": draw(st.sampled_from([True, True, True, False])),
-            "fill": draw(st.integers(0, 999)),
+            "ndef": focus or draw(st.sampled_from([True, True, True, False])),
+            "fill": draw(st.integers(0, 999)), "ln": ln,
+            "text": ln is not None and ln >= 7 and draw(st.booleans()),
             "wcnt": draw(st.one_of(
                 st.sampled_from([0, 0, 1, 0xFD, 0xFE, 0xFF, 0xFFFD, 0xFFFE,
                                  0xFFFF]), st.integers(0, 0xFFF000))),
@@ -1748,7 +1972,7 @@ LEGS = [
              "non-trivial = protect succeeded and the other password differs "
              "in a non-parity bit."),
     Leg("felica_hist_enum", run=run_felica_history, enum=enum_felica_history,
-        exhaustive=True, shards_quick=6, shards_thorough=16,
+        exhaustive=True, shards_quick=12, shards_thorough=16,
         rule="histories on ONE tag object: every sequence of 0, 1 or 2 "
              "(thorough: 3) operations out of {authenticate(card key), "
              "authenticate(key with one non-parity bit flipped), "
@@ -1762,23 +1986,54 @@ LEGS = [
              "counter 0 / FEh / FFFEh.  Every authenticate is judged by the "
              "key the simulator holds at that moment (as a DES key), every "
              "read_with_mac by the simulator's memory; a successful "
-             "protect(pw) must leave key(pw) on the tag.  non-trivial = an "
-             "authenticate that is not the first operation on the object."),
+             "protect(pw) must leave key(pw) on the tag.  Second family "
+             "(order of NDEF accesses, modifications in transit and "
+             "authentications): every sequence of 1-3 (thorough: 1-4) "
+             "operations out of {look at tag.ndef (octets, length, records; "
+             "no re-read asked for), the same while one bit of the block data "
+             "of every read response of the NDEF path is changed in transit "
+             "(plain reads before authentication: the bytes a MAC'd read would "
+             "protect; MAC'd reads: data or MAC; message reads only or also "
+             "the attribute block), tag.ndef.has_changed + look, the same with "
+             "the bit changed, authenticate(card key), authenticate(one "
+             "non-parity key bit off)} followed by an undisturbed look at "
+             "tag.ndef, x 3 products/counter policies x factory / seeded key, "
+             "message of 1-39 or 40-199 bytes (random octets or a Text "
+             "record).  While the last authenticate() returned True, NDEF "
+             "octets handed out by the tag object must be a message the "
+             "simulator's memory held at some point of the history (or one "
+             "the history itself wrote) or tag.ndef is None - never bytes "
+             "changed in transit, whether before or after authentication; "
+             "length and records must agree with the octets; before / without "
+             "authentication nothing is claimed.  non-trivial = an "
+             "authenticate that is not the first operation on the object, or "
+             "an NDEF access of an authenticated tag object in a history "
+             "with a modified NDEF read."),
     Leg("felica_history", run=run_felica_history,
-        gen=lambda tier: gen_felica_history(), quick=400, thorough=12000,
+        gen=lambda tier: gen_felica_history(), quick=480, thorough=12000,
         shards_quick=4, shards_thorough=16, nt_floor=0.3,
         rule="generated histories of 2-6 operations on one FeliCa Lite / "
              "Lite-S tag object: authenticate (the current or the previous "
              "key, exact or one of the felica_auth password variants), "
              "protect (password forms and shapes of felica_protect, "
              "read_protect, protect_from), write_without_mac / "
-             "write_with_mac of a block 0..14, NDEF write, NDEF re-read, "
+             "write_with_mac of a block 0..14, NDEF write, NDEF access "
+             "(look at tag.ndef octets/length/records, or has_changed + "
+             "look; half of them with one bit of the block data / MAC of the "
+             "read responses of the NDEF path changed in transit, in plain "
+             "reads as well as MAC'd reads, i.e. before and after any "
+             "authenticate/protect of the history), "
              "read_with_mac of 1-3 blocks (four in nine with 1-4 random "
              "frame modifications, a re-shaped block list or the response of "
-             "a read of another size); Lite-S with either write counter policy and a "
-             "generated counter start value (byte carries); oracles as in "
-             "felica_hist_enum; non-trivial = an authenticate that is not "
-             "the first operation on the object."),
+             "a read of another size); one history in three draws mostly NDEF "
+             "accesses and authentications (3-6 operations, message of 1-200 "
+             "bytes, random octets or a Text record, the changed bit mostly "
+             "inside the message); Lite-S with either write counter policy "
+             "and a generated counter start value (byte carries); oracles as "
+             "in felica_hist_enum; non-trivial = an authenticate that is not "
+             "the first operation on the object, or an NDEF access of an "
+             "authenticated tag object in a history with a modified NDEF "
+             "read."),
     Leg("ntag_auth", run=run_ntag_auth, gen=lambda tier: gen_ntag_auth(),
         quick=3000, thorough=60000, shards_quick=2, shards_thorough=8,
         nt_floor=0.3,
